@@ -5,7 +5,7 @@ from __future__ import annotations
 import ast
 
 from sa.cfg import dominators, reachable, reaches
-from sa.db import AnalysisError, FuncInfo, ancestors, dotted, src, walk_local
+from sa.db import AnalysisError, FuncInfo, ancestors, bind_args, dotted, src, walk_local
 from sa.model import contains, enclosing
 from sa.variants import Variant, replace_once, sub_first, sub_once
 
@@ -262,7 +262,7 @@ def run(ctx) -> None:
     # ---- R4 -------------------------------------------------------------------------
     bh = db.func("graph.core._build_hierarchical_id")
     sk = {_skeleton(n.value) for n in walk_local(bh.node) if isinstance(n, ast.Return) and _skeleton(n.value)}
-    ok = "{}/{}" in sk and any(isinstance(n, ast.Return) and isinstance(n.value, ast.Name) and n.value.id == "node_name" for n in walk_local(bh.node))
+    ok = "{}/{}" in sk and any(isinstance(n, ast.Return) and isinstance(n.value, ast.Name) and n.value.id == (bh.positional_params + ["node_name"])[0] for n in walk_local(bh.node))
     rep.add("C20.R4", f"{bh.qname}", ok, bh.loc(), "nested id = '<parent id>/<name>', root id = name" if ok else "hierarchical ids are not '<parent>/<name>' (collisions between equally named nested nodes)")
     fl = db.func("graph.core.Graph._flatten_nodes")
     adds = [c for c in db.calls_in(fl) if isinstance(c.func, ast.Attribute) and c.func.attr == "add_node"]
@@ -270,17 +270,20 @@ def run(ctx) -> None:
     ok = len(adds) == 1 and len(recs) == 1 and isinstance(adds[0].args[0], ast.Name)
     if ok:
         idvar = adds[0].args[0].id
-        kw = {k.arg: k.value for k in recs[0].keywords}
-        ok = isinstance(kw.get("parent"), ast.Name) and kw["parent"].id == idvar
+        fl_pos = [p_ for p_ in fl.positional_params if p_ != "self"]
+        PG, PP = (fl_pos + ["G", "nodes", "parent"])[0], (fl_pos + ["G", "nodes", "parent"])[2]  # graph being filled, parent id (own names of the private method)
+        kw = bind_args(recs[0], fl) or {}
+        ok = isinstance(kw.get(PP), ast.Name) and kw[PP].id == idvar
         g = enclosing(recs[0], (ast.If,))
         ok = ok and g is not None and "is not None" in src(g.test)
         from sa.pattern import solve
 
-        parent_attr = bool(solve(["_A['parent'] = parent", "G.add_node(_ID, **_A)"], fl.node))
+        parent_attr = bool(solve([f"_A['parent'] = {PP}", f"{PG}.add_node(_ID, **_A)"], fl.node))
         ok = ok and parent_attr
     rep.add("C20.R4", f"{fl.qname}", ok, fl.loc(), "each node is added once under its hierarchical id with its parent link; recursion descends into nested graphs with that id as parent" if ok else "flattening does not add each nested node once with id/parent link, or recurses with the wrong parent")
     tf = db.func("graph.core.Graph.to_flat_graph")
-    ok = any("_flatten_nodes" in call_names(db, c, tf) and any(k.arg == "parent" and isinstance(k.value, ast.Constant) and k.value.value is None for k in c.keywords) for c in db.calls_in(tf)) and any("_flatten_edges" in call_names(db, c, tf) for c in db.calls_in(tf))
+    fl_pp = ([p_ for p_ in fl.positional_params if p_ != "self"] + ["G", "nodes", "parent"])[2]
+    ok = any("_flatten_nodes" in call_names(db, c, tf) and isinstance((bind_args(c, fl) or {}).get(fl_pp), ast.Constant) and bind_args(c, fl)[fl_pp].value is None for c in db.calls_in(tf)) and any("_flatten_edges" in call_names(db, c, tf) for c in db.calls_in(tf))
     # edges of a (nested) graph are translated with a lookup of *that* scope: names are unique per graph only
     gcls = db.cls("graph.core.Graph")
     lk = gcls.methods.get("_build_name_to_id_lookup")
